@@ -10,7 +10,12 @@ func TestProp(t *testing.T) {
 	h.Run(t, h.Spec[Case]{ID: "C12", Gen: Gen(), Prop: Prop, CountSubs: true})
 }
 
-// FuzzProp is the native coverage-guided fuzz target (thorough tier).
+// FuzzProp is the native coverage-guided fuzz target (thorough tier): multi-byte damage, ONE damaged copy per execution.
 func FuzzProp(f *testing.F) {
-	h.Fuzz(f, h.Spec[Case]{ID: "C12", Gen: Gen(), Prop: Prop, CountSubs: true})
+	h.Fuzz(f, h.Spec[Multi]{ID: "C12", Gen: GenMulti(), Prop: PropMulti})
+}
+
+// TestMulti runs the multi-byte variant under rapid (sanity of the fuzz target).
+func TestMulti(t *testing.T) {
+	h.Run(t, h.Spec[Multi]{ID: "C12", Gen: GenMulti(), Prop: PropMulti})
 }
